@@ -49,7 +49,7 @@ func Create(engine engine.Engine, owner key.TargetID, lc info.LightCone) {
 	}
 
 	engine.Events().BattleStart.Subscribe(func(event event.BattleStart) {
-		for char := range event.CharInfo {
+		for _, char := range engine.Characters() { // team order, not map order
 			engine.AddModifier(char, mod)
 		}
 	})
